@@ -64,3 +64,12 @@ Proof. exact builtin_self_pass_with_optional. Qed.
 
 Theorem c05_builtin_nonempty : (0 < List.length builtin_policies)%nat.
 Proof. exact builtin_nonempty. Qed.
+
+(* the key tests of the policy file parser are those of the current source (T1c translation of Policy.__init__) *)
+From VGen Require Import Tables.
+From VProofs Require Import TieC05.
+Theorem c05_tie_policy_key_invalid : forall key,
+  (negb (mem key valid_keys) && negb (starts_with "hostkey_size_" key) && negb (starts_with "cakey_size_" key) && negb (starts_with "dh_modulus_size_" key)) = src_policy_key_invalid key.
+Proof. exact tie_policy_key_invalid. Qed.
+Theorem c05_tie_policy_key_groups : list_keys = src_policy_list_keys /\ ["name"; "banner"]%string = src_policy_quoted_keys.
+Proof. exact tie_policy_key_groups. Qed.
